@@ -109,23 +109,31 @@ for _m in ("contracts.c11_containment", "contracts.c02_magic_numbers", "contract
     except BaseException:  # noqa
         pass
 
+class IsIgnoredPathFallback:
+    def value(file_path, ignore_patterns):
+        return any(ignored in file_path for ignored in ignore_patterns)
+
+
+class MagicNumbersIsTestFileFallback:
+    def value(file_path):
+        return has_test_marker(path_str(file_path))
+
+
+class PrintStatementsIsTestFileFallback:
+    def value(file_path):
+        return has_test_marker(path_str(file_path))
+
+
+# (contract classes must be module-level; they are REGISTERED only while the owner's file is unavailable)
 if LU + "is_ignored_path" not in _api.REGISTRY:
-    @contract(LU + "is_ignored_path", props=["C09", "C17"], types=dict(file_path=Str, ignore_patterns=SeqOf(Str)), returns=Bool)
-    class IsIgnoredPathFallback:
-        def value(file_path, ignore_patterns):
-            return any(ignored in file_path for ignored in ignore_patterns)
-
+    contract(LU + "is_ignored_path", props=["C09", "C17"], types=dict(file_path=Str, ignore_patterns=SeqOf(Str)),
+             returns=Bool)(IsIgnoredPathFallback)
 if MN + "MagicNumberRule._is_test_file" not in _api.REGISTRY:
-    @contract(MN + "MagicNumberRule._is_test_file", props=["C09"], types=dict(file_path=PathT), returns=Bool)
-    class MagicNumbersIsTestFileFallback:
-        def value(file_path):
-            return has_test_marker(path_str(file_path))
-
+    contract(MN + "MagicNumberRule._is_test_file", props=["C09"], types=dict(file_path=PathT), returns=Bool)(MagicNumbersIsTestFileFallback)
 if PR + "PrintStatementRule._is_test_file" not in _api.REGISTRY:
-    @contract(PR + "PrintStatementRule._is_test_file", props=["C09"], types=dict(file_path=PathT), returns=Bool)
-    class PrintStatementsIsTestFileFallback:
-        def value(file_path):
-            return has_test_marker(path_str(file_path))
+    contract(PR + "PrintStatementRule._is_test_file", props=["C09"], types=dict(file_path=PathT), returns=Bool)(PrintStatementsIsTestFileFallback)
+
+
 @lemma(props=["C09"], types=dict(pre=Str), name="rust-default-ignore-ignores-project-location")
 def rust_default_ignore_location(pre):
     """unwrap-abuse / clone-abuse / blocking-async default ignore list ["examples/", "benches/", "tests/"], posed for a
@@ -188,16 +196,23 @@ def py_test_file_location(pre, rel):
 
 
 CtxLite = Rec("ctx", file_path=PathT)
-from contracts.c16_srp import SRPConfigT  # noqa: E402
+try:
+    from contracts.c16_srp import SRPConfigT  # noqa: E402
+except BaseException:  # noqa
+    SRPConfigT = Rec("SRPConfig", cls="src/linters/srp/config.py::SRPConfig", pycls="src.linters.srp.config:SRPConfig",
+                     max_methods=Int, max_loc=Int, enabled=Bool, check_keywords=Bool, keywords=SeqOf(Str), ignore=SeqOf(Str))
 
 
 # SRPRule._is_file_ignored: contract in contracts/c16_srp.py (value = any(pattern in str(context.file_path) ...)); local
 # equivalent only while that file does not provide it
+class SrpIsFileIgnoredFallback:
+    def value(context, config):
+        return any(pattern in path_str(context.file_path) for pattern in config.ignore)
+
+
 if SRP + "SRPRule._is_file_ignored" not in _api.REGISTRY:
-    @contract(SRP + "SRPRule._is_file_ignored", props=["C09", "C16"], types=dict(context=CtxLite, config=SRPConfigT), returns=Bool)
-    class SrpIsFileIgnoredFallback:
-        def value(context, config):
-            return any(pattern in path_str(context.file_path) for pattern in config.ignore)
+    contract(SRP + "SRPRule._is_file_ignored", props=["C09", "C16"], types=dict(context=CtxLite, config=SRPConfigT),
+             returns=Bool)(SrpIsFileIgnoredFallback)
 
 
 def srp_config(pat):
